@@ -464,13 +464,21 @@ def check_creds(ctx):
     # type gate in enforce
     raises = [p for p in t.paths if p.outcome.kind == 'raise' and
               t.raised_class(p) == POLICY + '.InvalidContextObject']
+    def refused(p):
+        """classes a path knows the credentials are *not* an instance of"""
+        out = set()
+        for c in p.conds:
+            e = t.expand(c.expr)
+            if c.kind == 'test' and not c.pol and isinstance(
+                    e, ast.Call) and U(e.func) == 'isinstance' and len(
+                        e.args) == 2 and U(e.args[0]) == 'creds':
+                ts = e.args[1].elts if isinstance(
+                    e.args[1], ast.Tuple) else [e.args[1]]
+                out |= {U(x).rsplit('.', 1)[-1] for x in ts}
+        return out
     okg = bool(raises) and all(
-        any(c.kind == 'test' and not c.pol and 'isinstance(creds' in U(
-            c.expr) and 'RequestContext' in U(c.expr) for c in p.conds)
-        and any(c.kind == 'test' and not c.pol and 'isinstance(creds' in U(
-            c.expr) and ('MutableMapping' in U(c.expr)
-                         or U(c.expr).endswith(', dict)'))
-                for c in p.conds)
+        'RequestContext' in refused(p) and (
+            'MutableMapping' in refused(p) or 'dict' in refused(p))
         for p in raises)
     ctx.ob('C08.CREDS', okg, ctx.where(enf.module, enf.node), enf.qual,
            'credentials type gate',
